@@ -517,6 +517,35 @@ func rulePartDep(r *Run) {
 // R-MUST-UPDATE (C13/C15)
 // ---------------------------------------------------------------------------
 
+// alwaysCallsNamed: every return of fn is preceded by a call of the function called name, made
+// directly or by a callee with the same property (the registration moved into a helper that also
+// rewrites the part).
+func alwaysCallsNamed(p *Program, fn *ssa.Function, name string, depth int) bool {
+	if fn == nil || !p.inModule(fn) || len(fn.Blocks) == 0 || depth > 2 {
+		return false
+	}
+	var calls []ssa.Instruction
+	allInstrs(fn, func(in ssa.Instruction) {
+		c, ok := in.(*ssa.Call)
+		if !ok {
+			return
+		}
+		cal := staticCallee(c)
+		if calleeIs(cal, name) || (cal != fn && alwaysCallsNamed(p, cal, name, depth+1)) {
+			calls = append(calls, c)
+		}
+	})
+	if len(calls) == 0 {
+		return false
+	}
+	for _, ret := range returnsOf(fn) {
+		if !mustPassThrough(fn, ret, calls) {
+			return false
+		}
+	}
+	return true
+}
+
 func ruleMustUpdate(r *Run) {
 	p := r.P
 	fn := r.mustFunc(pkgDoc, "(*Document).getOrCreateNumbering")
@@ -535,7 +564,7 @@ func ruleMustUpdate(r *Run) {
 			}
 		case *ssa.Call:
 			cal := staticCallee(x)
-			if calleeIs(cal, "updateNumberingFile") {
+			if calleeIs(cal, "updateNumberingFile") || alwaysCallsNamed(p, cal, "updateNumberingFile", 0) {
 				upd = append(upd, x)
 			}
 			// a registering helper (manager.registerInstance(numID, abstractNumID)): it stores into the
